@@ -111,7 +111,7 @@ func (e *Env) funcBody(ps *ProcSpec) func(t *sp.Task) {
 		}
 		key := taskKey(ps.Name, inPaths, t.Params)
 		vs.Event("S:" + key)
-		if ps.Barrier != "" {
+		if ps.Barrier != "" && barrierMember(ps, key) {
 			e.barrierWait(ps.Barrier, barrierSize(e.Spec, ps.Barrier))
 		}
 		for port, path := range inPaths {
@@ -119,11 +119,8 @@ func (e *Env) funcBody(ps *ProcSpec) func(t *sp.Task) {
 				ins[port] = refContent(e.Spec, path)
 				continue
 			}
-			d, err := vs.FSReadFile(path)
-			if err != nil {
-				sp.Failf("task %s cannot read its input %s: %v", key, path, err)
-			}
-			ins[port] = string(d)
+			// the documented way for a Go function to get at its input: FileIP.Read()
+			ins[port] = string(t.InIP(port).Read())
 		}
 		if ps.WriteIdiom {
 			// docs: "task.OutIP("out").Write(data)" inside CustomExecute
@@ -156,6 +153,20 @@ func refContent(w *WSpec, path string) string {
 	return r.Files[path]
 }
 
+// barrierMember: does the task with this key take part in its process' barrier (all tasks, unless
+// BarrierOnly names the inputs of the participating ones)
+func barrierMember(ps *ProcSpec, key string) bool {
+	if len(ps.BarrierOnly) == 0 {
+		return true
+	}
+	for _, m := range ps.BarrierOnly {
+		if strings.Contains(key, m) {
+			return true
+		}
+	}
+	return false
+}
+
 func barrierSize(w *WSpec, name string) int {
 	r := refCache[w]
 	if r == nil {
@@ -164,7 +175,7 @@ func barrierSize(w *WSpec, name string) int {
 	}
 	n := 0
 	for _, t := range r.Tasks {
-		if p := w.proc(t.Proc); p != nil && p.Barrier == name {
+		if p := w.proc(t.Proc); p != nil && p.Barrier == name && barrierMember(p, t.Key) {
 			n++
 		}
 	}
@@ -293,7 +304,7 @@ func (e *Env) vcmd(cwd string, f []string) error {
 	if e.Spec != nil {
 		ps = e.Spec.proc(proc)
 	}
-	if ps != nil && ps.Barrier != "" {
+	if ps != nil && ps.Barrier != "" && barrierMember(ps, key) {
 		e.barrierWait(ps.Barrier, barrierSize(e.Spec, ps.Barrier))
 	}
 	ins := map[string]string{}
